@@ -95,9 +95,38 @@ def x_fromregex( ctx ):
     src = ctx.src( AUTOMATA ).inlined( 'state.from_regex' )		# state creation moved into a small nested helper is looked at where it is called
     fn = src.get( 'state.from_regex' )
     loops = [ f for f in fn.body if isinstance( f, ast.For ) and pmatch( f.iter, 'machine.map.items()' ) is not None and isinstance( f.target, ast.Tuple ) ]
-    if len( loops ) != 2:
+    # pass 1 creates the states ( cls( ... )), pass 2 - the next walk over the map behind it - links them; walks ahead of pass 1 only prepare
+    creating = [ f for f in loops if any( isinstance( c, ast.Call ) and dotted( c.func ) == 'cls' for c in ast.walk( f )) ]
+    if not creating or loops.index( creating[0] ) + 1 >= len( loops ):
         raise AnalysisError( 'from_regex: the two passes over machine.map.items() not found (%d)' % len( loops ))
-    l1, l2 = loops
+    l1, l2 = creating[0], loops[loops.index( creating[0] ) + 1]
+    # ---- which fsm states get a state of their own, BY VALUE: everything up to and including pass 1 is run on two small automata - a chain
+    #      0 -a-> 1 -b-> 2 -c-> 3 ( final ) with greenery's oblivion state 4, and a loop ( a b )+ - with a recording stand-in for the state class.
+    #      Exactly the oblivion state is dropped: a state two or more steps ahead of a final one is as alive as its successor
+    from .fold import run_block, Record, NoFold as _NoFold
+    pre_ = [ st for st in fn.body[:fn.body.index( l1 ) + 1] if any( 'machine.map' in txt( x ) or 'machine.finals' in txt( x ) for x in ast.walk( st ) if isinstance( x, ast.Attribute ))
+             or ( isinstance( st, ast.Assign ) and isinstance( st.value, ( ast.Dict, ast.Call, ast.Set )) and not names_in( st.value ) - { 'set', 'dict' } ) ]
+    samples = (( 'abc', { 0: { 'a': 1, None: 4 }, 1: { 'b': 2, None: 4 }, 2: { 'c': 3, None: 4 }, 3: { None: 4 }, 4: { None: 4 } }, { 3 }, { 0, 1, 2, 3 } ),
+               ( '(ab)+', { 0: { 'a': 1, None: 3 }, 1: { 'b': 2, None: 3 }, 2: { 'a': 1, None: 3 }, 3: { None: 3 } }, { 2 }, { 0, 1, 2 } ),
+               ( 'a*', { 0: { 'a': 0, None: 1 }, 1: { None: 1 } }, { 0 }, { 0 } ))
+    wrong_ = []
+    for name_, map_, finals_, want_ in samples:
+        made = []
+        env_ = { 'machine': Record( map=map_, finals=finals_, initial=0 ), 'cls': lambda *a, **kw: ( made.append( a[0] ) or Record( name=a[0], **kw )), 'kwds': {}, 'str': str, 'all': all, 'any': any, 'set': set, 'dict': dict }
+        try:
+            run_block( pre_, env_, ignore_calls=( 'log', ))
+        except _NoFold as exc:
+            raise AnalysisError( 'from_regex: the creation of the states is not a decision fragment: %s' % exc )
+        regd = [ v_ for k_, v_ in env_.items() if isinstance( v_, dict ) and v_ and all( isinstance( x_, Record ) for x_ in v_.values()) ]
+        got_ = set( regd[0] ) if regd else set()
+        res.cells += 1
+        if got_ != want_:
+            wrong_.append(( name_, sorted( got_ ), sorted( want_ )))
+    if wrong_:
+        res.bad( src, l1, 'from_regex keeps the fsm states %s of the automaton of %r, specified %s' % ( wrong_[0][1], wrong_[0][0], wrong_[0][2] ),
+                 'a live state is classed dead ( or a dead one live ): transitions into it become non-transitions, and every expression whose shortest sentence is three or more symbols long refuses its own sentences ( abc, a{3}, \\d\\d\\d raise NonTerminal with nothing consumed )' )
+    else:
+        res.ok( src, l1, 'exactly the oblivion state of the automaton is dropped ( 3 automata )' )
     PRE, TAB = ( e.id for e in l1.target.elts )
     M = Matcher()
     # ---- pass 1
